@@ -127,6 +127,7 @@ def walk(g, adapter, ctx, name, max_nodes=200000, op_timeout=2.0, sig_fn=None, r
     reported = 0
     frontier = 0
     skipped = 0
+    nondet = 0
     closer = getattr(adapter, "close", None)
 
     def run_path(path, op):
@@ -171,8 +172,30 @@ def walk(g, adapter, ctx, name, max_nodes=200000, op_timeout=2.0, sig_fn=None, r
             checked += 1
             ctx.case((obs, opc, pidx))
             if pre != obs:
-                raise tlc.MachineryError("%s: replaying a path did not reproduce the state (code not deterministic?) "
-                                         "path=%s got=%s want=%s" % (name, path, pre, obs))
+                # a fresh object driven along a path that was verified before is now in another state: either the specification
+                # leaves a choice here (then nothing can be judged along this path), or the state is one the specification does
+                # not allow after this sequence - the behaviour of an object depends on something outside it (other instances,
+                # module-level state)
+                states, known = {(init_obs, init_hid)}, True
+                for pop in path:
+                    pc = canon(pop)
+                    if any(st not in g.sources for st in states):
+                        known = False
+                        break
+                    states = {(to, th) for st in states for (_r, to, th) in g.edges.get((st[0], st[1], pc), ())}
+                if known and pre not in {st[0] for st in states}:
+                    desc = ("%s: a fresh object driven through %s is in state %s; the specification allows only %s after this sequence "
+                            "(the same sequence gave %s before: the behaviour depends on something outside the object)" % (
+                                name, json.dumps(path), pre, json.dumps(sorted({st[0] for st in states})[:4]), obs))
+                    sig = {"kind": "walk", "spec": name, "op": "fresh-object-replay"}
+                    if ctx.violation(sig, desc, {"engine": "graphwalk", "spec": name, "path": path, "op": None,
+                                                 "observed": {"state": json.loads(pre)}, "allowed": sorted({st[0] for st in states})[:8]}):
+                        reported += 1
+                    if reported >= report_limit:
+                        return {"checked": checked, "nodes": len(paths), "aborted": True}
+                else:
+                    nondet += 1
+                break       # nothing more can be judged from this node along this path
             succ = set()
             allowed = []
             for h in hids:
@@ -209,7 +232,8 @@ def walk(g, adapter, ctx, name, max_nodes=200000, op_timeout=2.0, sig_fn=None, r
     stats = {"spec": name, "spec_states": len(g.states), "spec_edges": g.n_edges, "code_nodes": len(paths),
              "paths_driven": sum(len(v) for v in paths.values()),
              "pairs_checked": checked, "spec_states_reached_by_code": len(spec_states_hit),
-             "spec_edges_taken_by_code": spec_edges_hit, "frontier_nodes_not_expanded": frontier, "skipped_not_applicable": skipped}
+             "spec_edges_taken_by_code": spec_edges_hit, "frontier_nodes_not_expanded": frontier, "skipped_not_applicable": skipped,
+             "replays_where_the_spec_left_a_choice": nondet}
     ctx.extra.setdefault("walks", []).append(stats)
     ctx.traces += checked
     if len(ctx.samples) < 4 and paths:
